@@ -332,6 +332,28 @@ func drivePid(rec *Recorder, env *Env, r *rand.Rand) {
 		time.Sleep(time.Second)
 	}
 	rec.Emit(Ev{"ev": "Pid", "p": p, "i": i, "d": d, "sp": sp, "ms": ms, "vals": vals, "cur": cur})
+	{
+		// a SUSTAINED error with a small integral gain (and little or no proportional gain): the term is carried by the
+		// integral, which has to grow far beyond the size of a PWM value (hundreds of degree-seconds) before the curve
+		// reaches its end - slowly over many evaluations
+		sidL := uniq("ps")
+		newFileSensor(env, sidL, 0)
+		pL, iL, dL := -(r.Intn(2)), -(1 + r.Intn(3)), 0
+		spL := 30 + r.Intn(40)
+		cL := mkCurve(configuration.CurveConfig{ID: uniq("pidlong"), PID: &configuration.PidCurveConfig{Sensor: sidL, SetPoint: float64(spL),
+			P: float64(pL) / 100, I: float64(iL) / 1000, D: 0}})
+		var msL, valsL, curL []int
+		off := 250 + r.Intn(350) // 25..60 degrees too hot
+		for k := 0; k < 45; k++ {
+			mL := spL*10 + off + r.Intn(11) - 5
+			env.Set("s."+sidL, mL*100)
+			v, err := cL.Evaluate()
+			must(err)
+			msL, valsL, curL = append(msL, mL), append(valsL, v), append(curL, cL.CurrentValue())
+			time.Sleep(time.Second)
+		}
+		rec.Emit(Ev{"ev": "Pid", "p": pL, "i": iL, "d": dL, "sp": spL, "ms": msL, "vals": valsL, "cur": curL})
+	}
 	// arbitrary finite gains and inputs over the whole range: the value must stay within 0..255
 	sid2 := uniq("ps")
 	newFileSensor(env, sid2, 0)
